@@ -101,13 +101,18 @@ theorem mono_read7Aux (f shl r : Nat) : Mono (read7Aux f shl r) := by
     unfold read7Aux
     refine Mono.bind (Mono.readN _) (fun b => ?_)
     dsimp only
-    split
-    · split
-      · split
-        · exact Mono.fail _
-        · exact ih _ _
-      · exact Mono.pure _
-    · exact Mono.ub _
+    by_cases hg : shl = 28 ∧ leNat b % 128 ≥ 16
+    · rw [if_pos hg]; exact Mono.fail _
+    · rw [if_neg hg]
+      by_cases hshl : shl < 32
+      · rw [if_pos hshl]
+        by_cases h128 : leNat b ≥ 128
+        · rw [if_pos h128]
+          by_cases hf : f = 0
+          · rw [if_pos hf]; exact Mono.fail _
+          · rw [if_neg hf]; exact ih _ _
+        · rw [if_neg h128]; exact Mono.pure _
+      · rw [if_neg hshl]; exact Mono.ub _
 
 theorem mono_read7 : Mono read7 := mono_read7Aux 5 0 0
 
